@@ -79,7 +79,7 @@ def _params(shapes):
         for n in range(len(shape)):
             for r in range(1, shape[n] + 1):
                 for fs in (False, True):
-                    if fs and (shape[n] > 3 or r > 2):
+                    if fs and shape[n] * r > 4:
                         continue  # the sign rule forks on every entry: size <= 3 only
                     out.append(dict(shape=shape, n=n, r=r, flipsign=fs, _tier=tier))
     return out
@@ -101,7 +101,7 @@ def _sp_params():
         pos = (last,) + tuple(last[:m] + (0,) + last[m + 1:] for m in range(len(shape)))
         for n in range(len(shape)):
             for r in range(1, shape[n] + 1):
-                out.append(dict(shape=shape, pos=pos, n=n, r=r, flipsign=(r % 2 == 0 and shape[n] <= 3), _tier=tier))
+                out.append(dict(shape=shape, pos=pos, n=n, r=r, flipsign=(shape[n] * r <= 4 and (r + n) % 2 == 0), _tier=tier))
     return out
 
 
@@ -121,7 +121,7 @@ def kruskal_nvecs(E, shape, R, n, r, flipsign):
     judge(E, K, O.den(K), n, r, flipsign, "ktensor.nvecs")
 
 
-@ob("C14", params=[dict(shape=s, core=c, n=n, r=r, flipsign=(r == 2 and s[n] <= 3), _tier=t) for s, c, t in [((2, 3), (2, 2), "quick"), ((4, 2), (2, 1), "quick"), ((3, 2, 2), (2, 2, 1), "thorough")]
+@ob("C14", params=[dict(shape=s, core=c, n=n, r=r, flipsign=(s[n] * r <= 4 and r == 2), _tier=t) for s, c, t in [((2, 3), (2, 2), "quick"), ((4, 2), (2, 1), "quick"), ((3, 2, 2), (2, 2, 1), "thorough")]
                    for n in range(len(s)) for r in range(1, s[n] + 1)], max_paths=20000, validate=False, env_stub=True,
     bounds="Tucker tensor with symbolic core and factors; every n and r; contract stub")
 def tucker_nvecs(E, shape, core, n, r, flipsign):
